@@ -154,14 +154,12 @@ def tokOf (t : Lexer.Tok) : Token :=
 def collect (cfg : Lexer.Cfg) : Nat → Lexer.LexState → Nat → List Char → List Lexer.Tok →
     List Lexer.Tok × Option Nat × Nat
   | 0, _, line, _, acc => (acc.reverse, none, line)
-  | fuel + 1, st, line, s, acc =>
-    match s with
-    | [] => (acc.reverse, none, line)
-    | _ =>
-      match Lexer.step cfg st line s with
-      | .err _ => (acc.reverse, some line, line)
-      | .tok t n next lines => collect cfg fuel next (line + lines) (s.drop (max n 1)) (t :: acc)
-      | .skip n next lines => collect cfg fuel next (line + lines) (s.drop (max n 1)) acc
+  | _ + 1, _, line, [], acc => (acc.reverse, none, line)
+  | fuel + 1, st, line, c :: cs, acc =>
+    match Lexer.step cfg st line (c :: cs) with
+    | .err _ => (acc.reverse, some line, line)
+    | .tok t n next lines => collect cfg fuel next (line + lines) ((c :: cs).drop (max n 1)) (t :: acc)
+    | .skip n next lines => collect cfg fuel next (line + lines) ((c :: cs).drop (max n 1)) acc
 
 /-- the parser's input: the tokens, followed by the sentinel if scanning failed -/
 def parserInput (toks : List Lexer.Tok) (lexErr : Option Nat) : List Token :=
